@@ -111,9 +111,11 @@ def spec_C05(lines, ghost=None):
     return bad
 
 def spec_C04(lines, ghost=None):
-    """A second take in the same run returns nothing."""
+    """A second take in the same run returns nothing; the accessors of one reader (is_empty / try_read / read / get /
+    entity) agree with each other."""
     bad = []
     for i, l in enumerate(lines):
+        if l.startswith("accessor-mismatch "): bad.append("line %d: the accessors of one reader disagree: %s" % (i, l[18:]))
         if l.startswith("body "):
             o = parse_obs(tok(l)[3:])
             if o.get("se2") != "-,-": bad.append("line %d: system event taken twice" % i)
